@@ -414,6 +414,47 @@ def canary(wd, role, runs, devs):
     return None
 
 
+_RE_PANIC_AT = re.compile(r"panicked at ([^\s:]+):(\d+):\d+:")
+_RE_REGISTRY = re.compile(r"^.*/registry/src/[^/]+/([A-Za-z0-9_-]+?)-\d+\.\d+\.\d+[^/]*/(?:src/)?(.*)$")
+_RE_SOZU_SRC = re.compile(r"^.*/((?:lib|command|bin)/src/.*)$")
+_RE_SOZU_FRAME = re.compile(r"^\s*\d+:\s+(.*sozu_lib::.*)$")
+
+
+def panic_class(summ):
+    """class of a worker-thread panic = panic location (registry / checkout prefix and crate version removed) +
+    innermost function of sozu on the stack: `worker-panic:kawa/storage/repr.rs:612:flush_stream_out`.
+    A different call site (or a different line of the same crate) is a different class, so an open finding that lists
+    one panic never hides another."""
+    msg = summ.get("worker_panic") or ""
+    entries = [p for p in summ.get("panics") or [] if msg and msg in p]
+    # the worker's panic is the one whose stack goes through the event loop of sozu
+    entries.sort(key=lambda p: 0 if "sozu_lib::server::Server" in p else 1)
+    if not entries:
+        return "worker-panic", None
+    head, _, stack = entries[0].partition(" | ")
+    m = _RE_PANIC_AT.search(head)
+    if not m:
+        return "worker-panic", entries[0]
+    path, line = m.group(1), m.group(2)
+    r = _RE_REGISTRY.match(path)
+    s = _RE_SOZU_SRC.match(path)
+    if r:
+        path = "%s/%s" % (r.group(1), r.group(2))
+    elif s:
+        path = "sozu/" + s.group(1)
+    func = "?"
+    for fr in stack.split(" <- "):
+        f = _RE_SOZU_FRAME.match(fr)
+        if not f:
+            continue
+        name = f.group(1).strip()
+        name = re.sub(r"::\{\{closure\}\}", "", name)
+        name = re.sub(r"::h[0-9a-f]{16}$", "", name)
+        func = re.sub(r"<[^<>]*>", "", name.rsplit("::", 1)[-1]) or "?"
+        break
+    return "worker-panic:%s:%s:%s" % (path, line, func), entries[0]
+
+
 def run(tier, replay=None):
     rep = vlib.Report(PID, tier)
     wd = vlib.workdir(PID)
@@ -508,7 +549,8 @@ def run(tier, replay=None):
     vlib.log("full-duplex schedules: %d park snapshots with a half-written stream frame and WINDOW_UPDATEs queued behind it, %d with an answer "
              "deferred in the zero buffer" % half)
     if summ.get("worker_panic"):
-        rep.violation("worker-panic", "the worker thread panicked: %s" % summ["worker_panic"], summ)
+        klass, where = panic_class(summ)
+        rep.violation(klass, "the worker thread panicked: %s%s" % (summ["worker_panic"], (" - " + where.split(" | ")[0].replace("\n", " ")) if where else ""), summ)
     for o in res:
         if o.get("kind") == "harness-panic":
             raise vlib.ToolError("harness panic in scenario %s: %s" % (o.get("label"), o.get("msg")))
